@@ -27,8 +27,9 @@ func isSingleAtomPremise(premises []ast.Term) bool {
 	if len(premises) != 1 {
 		return false
 	}
-	_, ok := premises[0].(ast.Atom)
-	return ok
+	a, ok := premises[0].(ast.Atom)
+	// A built-in atom has no stored facts to scan; it needs the internal relation too.
+	return ok && !a.Predicate.IsBuiltin()
 }
 
 // Rewrite transforms each clause of a given layer (stratum) of a program to another one where
